@@ -66,6 +66,7 @@ type c03World struct {
 	scope, collName string
 	bystanders      [][2]string
 	tag             string // fingerprint prefix for non-default layouts
+	conflictN       int
 }
 
 func (w *c03World) admin(chans base.Set) *auth.PrincipalConfig {
@@ -145,7 +146,8 @@ func (w *c03World) apply(sym string) error {
 					root = rev
 				}
 			}
-			newRev := fmt.Sprintf("2-%s%d", conflictTag, len(m.leaves))
+			w.conflictN++
+			newRev := fmt.Sprintf("2-%s%d", conflictTag, w.conflictN) // never the id of an earlier conflicting revision of this history
 			_, _, err = w.coll.PutExistingRevWithBody(ctx, docID, body, []string{newRev, root}, false, ExistingVersionWithUpdateToHLV)
 			if err != nil {
 				return err
